@@ -2,7 +2,7 @@
 import json
 import vf, progfam
 
-OWNED = {'manifold', 'counts'}
+OWNED = {'manifold', 'counts', 'broken-noerror'}
 
 def sig(f, beh):
     d = f['detail']
@@ -22,7 +22,44 @@ def main(tier):
     total += n; nontriv += nt
     num = 60 if tier == 'quick' else 1500
     sbehs, r = progfam.generate('GenC05sim.cfg', simulate=num, timeout=3000)
-    n, nt = progfam.replay(chk, sbehs, 2, ['--manifold'], OWNED, tag='sim', jobs=12, sig_of=sig)
+    import os, glob
+    work = '%s/work/C01' % vf.BUILD
+    os.makedirs(work, exist_ok=True)
+    for f in glob.glob(work + '/mtrace*.ndjson'): os.remove(f)
+    n, nt = progfam.replay(chk, sbehs, 2, ['--manifold', '--trace=%s/mtrace{j}.ndjson' % work], OWNED, tag='sim', jobs=12, sig_of=sig)
+    total += n; nontriv += nt
+    # the TLA+ predicate itself judges the recorded meshes (Halfedge_Trace.tla)
+    r0 = vf.tlc('Halfedge', 'Halfedge.cfg', workers=2, timeout=300)
+    vf.tlc_ok(r0, 'Halfedge lemmas')
+    if r0.violation: raise vf.ToolError('Halfedge.tla lemma %s violated' % r0.violation)
+    allp = work + '/all_meshes.ndjson'
+    nrec = 0
+    with open(allp, 'w') as out:
+        for t in sorted(glob.glob(work + '/mtrace*.ndjson')):
+            for line in open(t):
+                if line.strip() and nrec < (600 if tier == "quick" else 20000): out.write(line); nrec += 1
+    rt = vf.tlc('Halfedge_Trace', 'Halfedge_Trace.cfg', workers=1, timeout=2400, env={'TRACE': allp})
+    if rt.violation:
+        import re
+        m = re.findall(r'l = (\d+)', rt.out)
+        rec = open(allp).read().splitlines()[int(m[-1]) - 1] if m else ''
+        chk.violation('trace|Halfedge_Trace rejected a recorded mesh', 'exported mesh rejected by Halfedge.tla!Closed2Manifold/CountsAgree: ' + rec[:600], {'record': rec})
+    elif rt.error or rt.distinct < nrec:
+        raise vf.ToolError('mesh trace validation did not complete: %s\n%s' % (rt.error, rt.out[-1500:]))
+    chk.coverage['traces_validated_against_impl'] = nrec
+    # every node of exhaustively enumerated expression families (lazy, real object lifetimes)
+    import random
+    rnd = random.Random(vf.seed())
+    for fam in ('T3', 'D3'):
+        eb, r = progfam.generate('Expr_%s.cfg' % fam, module='Expr', timeout=900)
+        sub = eb if tier == 'thorough' else rnd.sample(eb, 1200)
+        n, nt = progfam.replay(chk, sub, 4, [], OWNED, tag=fam, mode='expr', jobs=12, sig_of=sig)
+        total += n; nontriv += nt
+    # the results of ~45 deriving operations (smoothing, refinement, hull, Minkowski, warp, normals, split ...) applied to
+    # imported meshes with property seams, merge vectors, tangents, several runs (nominal + benign variants of MeshGL.tla)
+    mb, r = progfam.generate('MeshGL_1.cfg', module='MeshGL', timeout=600)
+    benign = [b for b in mb if json.loads(b)['expect'] == 'Any']
+    n, nt = progfam.replay(chk, benign, 0, [], {'broken-noerror'}, tag='ops', mode='meshgl', jobs=12, chunk=3, sig_of=sig)
     total += n; nontriv += nt
     chk.coverage.update({
         'evaluations': total, 'distinct_nontrivial': nontriv,
